@@ -137,7 +137,19 @@ class C16Phh(Monitor):
                 self.report('roundtrip', 'loads_differs:' + ('triple_apostrophe' if triple else ','.join(diff[:3])),
                             f'loads(dumps(h)) differs from h in {diff}: ' + '; '.join(f'{n}: {getattr(hh, n)!r} -> {getattr(hh2, n)!r}' for n in diff[:3]))
             if text2 != text:
-                self.report('roundtrip', 'dumps_not_idempotent', f'saving the loaded history gives a different text')
+                def strings3(x):
+                    if isinstance(x, str):
+                        yield x
+                    elif isinstance(x, dict):
+                        for v_ in x.values():
+                            yield from strings3(v_)
+                    elif isinstance(x, list):
+                        for v_ in x:
+                            yield from strings3(v_)
+                # a field cut short at `'''` (finding F16) is of course written differently the second time
+                triple3 = any("'''" in t for t in strings3([kwargs, udf]))
+                self.report('roundtrip', 'dumps_not_idempotent' + (':triple_apostrophe' if triple3 else ''),
+                            'saving the loaded history gives a different text')
             # -- replay ----------------------------------------------------------------------------
             self._replay(sess, s, hh2, game)
 
